@@ -284,3 +284,7 @@ def replay(case):
     if case["kind"] == "transform":
         return run_transform_case(case["subject"], case["cfg"], case["pattern"], case["seed"], "thorough", None, only=only)
     return run_dist_case(case["subject"], case["cfg"], case["pattern"], case["seed"], "thorough", None, only=only)
+
+
+def case_size(case):
+    return len(case.get("hist", []))
